@@ -317,10 +317,16 @@ def boundary_histories(ctx):
 WIDE_TAGS = ["followup", "delays", "freq", "months", "years", "coverage", "workday", "crews", "sims"]
 
 
+HISTORY_KINDS = ["site-count", "period-start", "mdl", "coverage", "months", "surveys-per-year"]
+
+
 def _whole_one(args):
     seed, k, wide = args
     from harness import wholerun
     rng = random.Random(seed * 7919 + k)
+    history = None
+    if isinstance(wide, tuple) and wide[0] == "history":
+        history, wide = wide[1], None
     # execution modes: odd runs go through the process pool with two simulations (two simulations per
     # worker / pickled programs), even runs are sequential (debug) with one simulation
     pool = k % 2 == 1
@@ -340,9 +346,23 @@ def _whole_one(args):
                     "reporting_delay": 2})
         air["follow_up"].update({"delay": 10, "redundancy_filter": rng.choice(["recent", "average"]),
                                  "threshold": 1.0, "proportion": 1.0, "interaction_priority": "threshold"})
-    res = wholerun.run_config(cfg, debug=not pool, processes=2 if pool else 1, trace=True)
+    what = None
+    if history is not None:
+        # "history" shape: an earlier run in the SAME folder differed in one defining leaf; the run the user
+        # asked for (cfg) must satisfy every clause against its own configuration whatever ran there before
+        prev = None
+        for t in range(200):
+            cand, w_ = wholerun.prev_variant(cfg, random.Random(seed * 104729 + k * 977 + t))
+            if w_ == history:
+                prev, what = cand, w_
+                break
+        if prev is None:
+            prev, what = wholerun.prev_variant(cfg, random.Random(seed * 104729 + k))
+        res = wholerun.run_after(prev, cfg, debug=not pool, processes=2 if pool else 1, trace=True)
+    else:
+        res = wholerun.run_config(cfg, debug=not pool, processes=2 if pool else 1, trace=True)
     try:
-        out = {"cfg": cfg, "rc": res.rc if hasattr(res, "rc") else None, "log": (res.log or "")[-2000:]
+        out = {"cfg": cfg, "history": what, "prev_rc": getattr(res, "prev_rc", None), "rc": res.rc if hasattr(res, "rc") else None, "log": (res.log or "")[-2000:]
                if hasattr(res, "log") else "", "traces": res.trace, "pool": pool,
                "wide": wide, "wide_applied": cfg.get("wide_applied", [])}
         return out
@@ -406,6 +426,40 @@ def check_trace(cfg, tr):
         if not w or len(rates) < w:
             return 0
         return sum(rates[len(rates) - w:]) / w
+
+    # the run is the one the configuration asks for (whatever was run in the folder before): the schedules
+    # of the screening and follow-up methods cover exactly the configured sites with the configured months /
+    # surveys per year, and the screening methods were updated on every day of the configured period
+    from datetime import date as _date
+    cfg_sites = {str(x["id"]) for x in cfg["sites"]}
+    ndays = (_date(*cfg["end"]) - _date(*cfg["start"])).days + 1
+    upd_days = {m: [] for m in screening}
+    for ev in tr["events"]:
+        if ev[0] == "sched" and ev[1] in screening + fus:
+            stats["schedule_checks"] = stats.get("schedule_checks", 0) + 1
+            got = {str(x[0]) for x in ev[5]}
+            if got != cfg_sites:
+                viol.append(("C09:whole:schedule-sites", "the schedule of a method does not cover exactly the configured "
+                             "sites", {"method": ev[1], "scheduled": sorted(got)[:30], "configured": sorted(cfg_sites)[:30]}))
+            if ev[1] in screening:
+                mm = meths[ev[1]]
+                for x in ev[5]:
+                    if sorted(x[2]) != sorted(mm["months"]):
+                        viol.append(("C09:whole:schedule-months", "deployment months of a screening method differ from the "
+                                     "configuration", {"method": ev[1], "site": x[0], "months": x[2], "configured": mm["months"]}))
+                        break
+                    if mm["deployment_type"] == "mobile" and "site_extra_cols" not in cfg \
+                            and int(x[1]) != int(mm["surveys_per_year"]):
+                        viol.append(("C09:whole:schedule-frequency", "surveys per year of a screening method differ from the "
+                                     "configuration", {"method": ev[1], "site": x[0], "required": x[1],
+                                                       "configured": mm["surveys_per_year"]}))
+                        break
+        elif ev[0] == "flagupd" and ev[2] in upd_days:
+            upd_days[ev[2]].append(ev[1])
+    for m_, days_ in upd_days.items():
+        if days_ and days_ != list(range(ndays)):
+            viol.append(("C09:whole:period", "the screening method was not updated on exactly the days of the configured "
+                         "period", {"method": m_, "first": days_[:2], "last": days_[-2:], "n": len(days_), "configured_days": ndays}))
 
     for ev in tr["events"]:
         kind = ev[0]
@@ -601,11 +655,19 @@ def wholerun_oracle(ctx):
     # wide configurations: one with every tag, the others with the tags that touch the follow-up chain
     nw = ctx.pick(3, 10)
     jobs += [(ctx.seed, 100 + k, True if k == 0 else (["followup"] if k % 3 == 1 else WIDE_TAGS)) for k in range(nw)]
-    with concurrent.futures.ThreadPoolExecutor(max_workers=ctx.pick(5, 8)) as ex:
+    # history shape: the same folder was used before by a run that differed in one leaf
+    nh = ctx.pick(1, 4)
+    off = ctx.seed % len(HISTORY_KINDS)
+    jobs += [(ctx.seed, 200 + k, ("history", HISTORY_KINDS[(off + k) % len(HISTORY_KINDS)])) for k in range(nh)]
+    with concurrent.futures.ThreadPoolExecutor(max_workers=ctx.pick(6, 8)) as ex:
         results = list(ex.map(_whole_one, jobs))
     tot = {"fu_visits": 0, "flags": 0, "fuq": 0, "snapshots": 0, "multiday_screenings": 0, "history_checks": 0}
     for out in results:
         ctx.count("whole:mode:" + ("pool" if out["pool"] else "debug"))
+        if out.get("history"):
+            ctx.count("history:" + out["history"])
+            if out.get("prev_rc") not in (0, None):
+                ctx.note("history run: the earlier run (%s) ended with rc %s" % (out["history"], out["prev_rc"]))
         if out["wide"] is not None:
             ctx.count("whole:wide_runs")
             for a in out["wide_applied"]:
@@ -622,14 +684,16 @@ def wholerun_oracle(ctx):
             for k, v in stats.items():
                 tot[k] = tot.get(k, 0) + v
             for (sig, what, det) in viol:
-                ctx.violate(sig, what, {"whole_run_cfg": out["cfg"], "prog": tr["prog"], "sim": tr["sim"], "detail": det})
+                ctx.violate(sig, what, {"whole_run_cfg": out["cfg"], "prog": tr["prog"], "sim": tr["sim"], "detail": det,
+                                        "history": out.get("history")})
             ctx.evaluations += stats["fu_visits"] + stats["flags"] + stats["snapshots"]
         ctx.traces += 1
     for k, v in tot.items():
         ctx.count("whole:" + k, v)
     if tot["fu_visits"] == 0 or tot["flags"] == 0:
         ctx.note("whole-run stage: no follow-up activity in the generated configurations (vacuous)")
-    ctx.extra["whole_runs"] = n + nw
+    ctx.extra["whole_history_runs"] = nh
+    ctx.extra["whole_runs"] = n + nw + nh
     ctx.extra["whole_wide_runs"] = nw
 
 
